@@ -3,6 +3,7 @@ package main
 import (
 	"fmt"
 	"go/ast"
+	"go/constant"
 	"go/token"
 	"go/types"
 	"os"
@@ -984,5 +985,234 @@ func ruleSuccessorKeepsIncrementedByte(r *Report, rule string, pkgFilter func(re
 	}
 	if n < floor {
 		undecidedf("successor rule matched %d sites", n)
+	}
+}
+
+// rulePooledLocationsDeepCopied (K6, pooled buffers): DocumentMatch objects are
+// recycled through DocumentMatchPool and Reset() keeps the ArrayPositions
+// buffers of their FieldTermLocations for reuse.  A function that moves
+// FieldTermLocation values out of one match into a slice owned by someone else
+// (signature: a []FieldTermLocation destination plus a *DocumentMatch or
+// []*DocumentMatch source) must therefore give every moved element its own
+// ArrayPositions (append-copy); a bulk `append(dest, m.FieldTermLocations...)`
+// or an element copy shares the buffer with a match that is about to be reused.
+func rulePooledLocationsDeepCopied(r *Report, rule string) {
+	p := r.P
+	n := 0
+	for _, fi := range p.funcsInPkg("search") {
+		if fi.Decl.Body == nil {
+			continue
+		}
+		sig := fi.Obj.Type().(*types.Signature)
+		hasDest, hasSrc := false, false
+		for i := 0; i < sig.Params().Len(); i++ {
+			t := sig.Params().At(i).Type().String()
+			if strings.HasSuffix(t, "[]"+blevePath+"/search.FieldTermLocation") {
+				hasDest = true
+			}
+			if strings.HasSuffix(t, "*"+blevePath+"/search.DocumentMatch") {
+				hasSrc = true
+			}
+		}
+		if !hasDest || !hasSrc {
+			continue
+		}
+		info := fi.Pkg.TypesInfo
+		for _, c := range builtinCalls(info, fi.Decl.Body, "append") {
+			if len(c.Args) < 2 || !strings.HasSuffix(info.TypeOf(c).String(), "search.FieldTermLocation") || !strings.HasPrefix(info.TypeOf(c).String(), "[]") {
+				continue
+			}
+			n++
+			r.Fn(fi)
+			ok, why := true, ""
+			if c.Ellipsis.IsValid() && !isSelectorChain(c.Args[1]) {
+				// re-housing the destination's own elements (growth) moves nothing between owners
+				r.Ob(rule, fi.Name+"/grow-own-slice", c.Pos(), true, "append of the destination's own elements onto a larger buffer")
+				continue
+			}
+			if c.Ellipsis.IsValid() {
+				ok, why = false, "bulk append of "+exprStr(c.Args[1])+" copies the elements shallowly (their ArrayPositions keep pointing into the source match)"
+			} else {
+				for _, a := range c.Args[1:] {
+					cl, isLit := ast.Unparen(a).(*ast.CompositeLit)
+					if !isLit {
+						ok, why = false, "element "+exprStr(a)+" is copied as a whole value (its ArrayPositions slice is shared with the source match)"
+						continue
+					}
+					// find the ArrayPositions initialiser anywhere inside the literal
+					ast.Inspect(cl, func(x ast.Node) bool {
+						kv, isKV := x.(*ast.KeyValueExpr)
+						if !isKV {
+							return true
+						}
+						if id, isID := kv.Key.(*ast.Ident); isID && id.Name == "ArrayPositions" {
+							v := ast.Unparen(kv.Value)
+							call, isCall := v.(*ast.CallExpr)
+							fresh := isCall && calleeBuiltin(info, call) == "append" && len(call.Args) >= 1 && !isSelectorChain(call.Args[0])
+							if !fresh && !isNilIdent(info, v) {
+								ok, why = false, "ArrayPositions: "+exprStr(v)+" aliases the source match's buffer (expected an append-copy onto a fresh or own slice)"
+							}
+						}
+						if id, isID := kv.Key.(*ast.Ident); isID && id.Name == "Location" {
+							if _, isLit := ast.Unparen(kv.Value).(*ast.CompositeLit); !isLit {
+								ok, why = false, "Location: "+exprStr(kv.Value)+" copies the Location as a whole value (ArrayPositions shared)"
+							}
+						}
+						return true
+					})
+				}
+			}
+			r.Ob(rule, fi.Name+"/moved-locations-own-their-array-positions", c.Pos(), ok,
+				"FieldTermLocations moved from one DocumentMatch into another owner's slice need their own ArrayPositions: the source match goes back to the pool and its buffers are rewritten for the next posting while the phrase/collector code still reads the merged entries. "+why)
+		}
+	}
+	if n < 1 {
+		undecidedf("pooled-location rule matched no transfer site")
+	}
+}
+
+func isSelectorChain(e ast.Expr) bool {
+	_, ok := ast.Unparen(e).(*ast.SelectorExpr)
+	return ok
+}
+
+// ruleHeapRestoredBeforePeek: DisjunctionHeapSearcher keeps the cursors of the
+// current match OUTSIDE the heap (matchingCurrs).  The heap top is the minimum
+// of all cursors only after those were pushed back, so in Advance every peek
+// at s.heap[0] must be dominated by the loop that re-pushes matchingCurrs.
+func ruleHeapRestoredBeforePeek(r *Report, rule string) {
+	p := r.P
+	fi := p.MustFunc("search/searcher.(*DisjunctionHeapSearcher).Advance")
+	r.Fn(fi)
+	info := fi.Pkg.TypesInfo
+	g := buildCFG(info, fi.Decl.Body)
+	var restore *ast.RangeStmt
+	ast.Inspect(fi.Decl.Body, func(x ast.Node) bool {
+		rs, ok := x.(*ast.RangeStmt)
+		if !ok || !isField(info, rs.X, "DisjunctionHeapSearcher", "matchingCurrs") || restore != nil {
+			return true
+		}
+		for _, c := range callsDeep(rs.Body) {
+			if f := callee(info, c); f != nil && qname(f) == "container/heap.Push" {
+				restore = rs
+			}
+		}
+		return true
+	})
+	if restore == nil {
+		undecidedf("%s: loop pushing matchingCurrs back onto the heap not found", fi.Name)
+	}
+	n := 0
+	ast.Inspect(fi.Decl.Body, func(x ast.Node) bool {
+		ix, ok := x.(*ast.IndexExpr)
+		if !ok || !isField(info, ix.X, "DisjunctionHeapSearcher", "heap") {
+			return true
+		}
+		n++
+		// the range statement's X is the CFG node that stands for the loop entry
+		ok2 := g.DominatesNode(restore.X, ix) && restore.Pos() < ix.Pos()
+		r.Ob(rule, fi.Name+"/heap-top-read-after-pending-restored", ix.Pos(), ok2, "s.heap[0] is read as 'the smallest cursor', which is only true once the cursors of the current match (s.matchingCurrs) were pushed back; a shortcut taken before that ignores the pending cursors and can return a document smaller than the target")
+		return true
+	})
+	if n < 1 {
+		undecidedf("%s: no heap-top read found", fi.Name)
+	}
+}
+
+// ruleInclusiveFlagsSingleInterpreter: the optional inclusive_* flags of the
+// range queries (pointer-to-bool, nil = default) are interpreted in exactly one
+// place, the searcher constructors; package query only stores them and passes
+// them through.  The constructors agree on the defaults (lower bound inclusive,
+// upper bound exclusive) and apply them before the first dereference.
+func ruleInclusiveFlagsSingleInterpreter(r *Report, rule string) {
+	p := r.P
+	n := 0
+	for _, fi := range p.funcsInPkg("search/query") {
+		if fi.Decl.Body == nil {
+			continue
+		}
+		info := fi.Pkg.TypesInfo
+		ast.Inspect(fi.Decl.Body, func(x ast.Node) bool {
+			sel, ok := x.(*ast.SelectorExpr)
+			if !ok || !strings.HasPrefix(sel.Sel.Name, "Inclusive") {
+				return true
+			}
+			v, ok := info.ObjectOf(sel.Sel).(*types.Var)
+			if !ok || !v.IsField() || v.Type().String() != "*bool" {
+				return true
+			}
+			n++
+			r.Fn(fi)
+			// allowed context: direct argument of a searcher constructor
+			okUse := false
+			for _, c := range callsDeep(fi.Decl.Body) {
+				for _, a := range c.Args {
+					if ast.Unparen(a) == ast.Expr(sel) {
+						if f := callee(info, c); f != nil && f.Pkg() != nil && strings.HasSuffix(f.Pkg().Path(), "/search/searcher") && strings.HasSuffix(f.Name(), "RangeSearcher") {
+							okUse = true
+						}
+					}
+				}
+			}
+			r.Ob(rule, fi.Name+"/"+sel.Sel.Name+"-passed-through-uninterpreted", sel.Pos(), okUse,
+				"package query hands "+exprStr(sel)+" to the range searcher constructor untouched; any other use (nil test, dereference, helper call) is a second interpretation of 'unset' that has to agree with the constructor's defaults (min inclusive, max exclusive) and with what MarshalJSON omits")
+			return true
+		})
+	}
+	// constructors: defaults and order
+	for _, fi := range p.funcsInPkg("search/searcher") {
+		if fi.Decl.Body == nil || !strings.HasSuffix(fi.Obj.Name(), "RangeSearcher") {
+			continue
+		}
+		info := fi.Pkg.TypesInfo
+		sig := fi.Obj.Type().(*types.Signature)
+		var g *FCFG
+		for i := 0; i < sig.Params().Len(); i++ {
+			prm := sig.Params().At(i)
+			if prm.Type().String() != "*bool" || !strings.HasPrefix(prm.Name(), "inclusive") {
+				continue
+			}
+			if g == nil {
+				g = buildCFG(info, fi.Decl.Body)
+			}
+			r.Fn(fi)
+			n++
+			want := strings.HasSuffix(strings.ToLower(prm.Name()), "min") || strings.HasSuffix(strings.ToLower(prm.Name()), "start")
+			// if P == nil { d := CONST; P = &d }
+			var defStmt *ast.IfStmt
+			var got, found bool
+			ast.Inspect(fi.Decl.Body, func(x ast.Node) bool {
+				is, ok := x.(*ast.IfStmt)
+				if !ok {
+					return true
+				}
+				e, isEq, isNil := nilTest(info, is.Cond)
+				if !isNil || !isEq || objOf(info, e) != prm {
+					return true
+				}
+				for _, st := range is.Body.List {
+					if as, ok := st.(*ast.AssignStmt); ok && len(as.Rhs) == 1 {
+						if tv, ok := info.Types[as.Rhs[0]]; ok && tv.Value != nil && tv.Value.Kind() == constant.Bool {
+							got, found, defStmt = constant.BoolVal(tv.Value), true, is
+						}
+					}
+				}
+				return true
+			})
+			r.Ob(rule, fi.Name+"/"+prm.Name()+"-default", fi.Decl.Pos(), found && got == want, fmt.Sprintf("unset %s defaults to %v (lower bounds inclusive, upper bounds exclusive, the documented API default), found=%v value=%v", prm.Name(), want, found, got))
+			if defStmt != nil {
+				ast.Inspect(fi.Decl.Body, func(x ast.Node) bool {
+					st, ok := x.(*ast.StarExpr)
+					if ok && objOf(info, st.X) == prm {
+						n++
+						r.Ob(rule, fi.Name+"/"+prm.Name()+"-deref-after-default", st.Pos(), g.DominatesNode(defStmt.Cond, st), "the flag is dereferenced only after the nil default was applied")
+					}
+					return true
+				})
+			}
+		}
+	}
+	if n < 12 {
+		undecidedf("inclusive-flag rule matched %d sites", n)
 	}
 }
